@@ -20,7 +20,8 @@ Vocabulary (defined in the lemma files, entry-wise):
                              the Gram matrix of the mode-`n` unfolding;
 * `Tk.KyFan`               — Ky Fan's maximum principle (a hypothesis of the monotonicity theorem only).
 -/
-import PyttbModel.Lemmas.TuckerAlsThm
+import PyttbModel.Lemmas.TuckerAlsAccept
+import PyttbModel.Lemmas.TuckerWitness
 namespace Pyttb
 open Tk
 
@@ -69,6 +70,14 @@ theorem C10_hosvd_rank_given (eigh : Nat → Mat ℝ → List ℝ × Mat ℝ) (h
   rw [hrank, Nat.min_eq_left hle] at ho
   rw [hF.core_shape hn, hfac]
   exact ⟨ho, ho.ncols⟩
+
+/-- The tree before 62e9ddd sliced `pi[0 : ranks[k] + 1]` for requested ranks too.  With an explicit
+copy of that slice bound a request for rank 1 keeps both columns of a 2-column eigenvector matrix
+(the core gets extent 2 instead of 1 in that mode), whereas the slice bound regenerated from the
+fixed source is the requested rank itself. -/
+theorem C10_hosvd_rank_given_pinned_counterexample :
+    (matCols ([[1, 0], [0, 1]] : Mat Nat) (List.take (1 + 1) [0, 1])).ncols = 2 ∧ ∀ r, Gen.sliceBound r = r :=
+  ⟨by decide, fun r => by simp [Gen.sliceBound]⟩
 
 /-- Automatic ranks: for every mode whose rank is chosen by `hosvd` (no rank vector, or a `0`
 entry), the pass that processed the mode — its record `rec` in the trace — worked on the
@@ -278,5 +287,108 @@ theorem C10_tucker_fit_monotone_partial (nvecs : Nat → Dense ℝ → Nat → N
   obtain ⟨_, vb, lb⟩ := (hI.each b hb).values hX
   rw [va, vb]
   exact fit_mono _ _ _ hab lb
+
+/-! ### Non-vacuity: the contracts are satisfiable and valid requests are accepted -/
+
+/-- The service contracts are satisfiable: the spectral theorem provides an `eigh` with
+`EighContract`, and the `nvecs` built from it satisfies `NvecsContract` and `NvecsLeading`. -/
+theorem C10_contracts_satisfiable :
+    (∃ eigh, EighContract eigh) ∧ (∃ nvecs, NvecsContract nvecs ∧ NvecsLeading nvecs) :=
+  ⟨⟨eighSpec, eighSpec_contract⟩, ⟨nvecsSpec, nvecsSpec_contract, nvecsSpec_leading⟩⟩
+
+/-- `hosvd` accepts every valid request (the theorems above speak about successful runs): data of
+order ≥ 1 with positive extents, a rank vector of the right length, a mode order that is a
+permutation, and either requested ranks `≥ 1` in every mode, or automatic ranks in every mode
+with `tol² < 1` on non-zero data.  (Mixed requests may legitimately fail: a hard user
+truncation can leave no eigenvalue sum above the threshold, where the Python code raises.) -/
+theorem C10_hosvd_accepts (eigh : Nat → Mat ℝ → List ℝ × Mat ℝ) (hE : EighContract eigh) (X : Dense ℝ) (hX : X.WF)
+    (hd : X.shape ≠ []) (hpos : ∀ k < X.shape.length, 1 ≤ X.shape.getD k 0) (tol : ℝ)
+    (dimorder : Option (List Nat)) (hperm : isPermOf (modeOrder dimorder X.shape.length) X.shape.length = true)
+    (seq : Bool) (ranks : Option (List Nat)) (hlen : (reqRanks ranks X.shape.length).length = X.shape.length)
+    (hcase : (∀ k < X.shape.length, (reqRanks ranks X.shape.length).getD k 0 ≠ 0) ∨
+      ((∀ k, (reqRanks ranks X.shape.length).getD k 0 = 0) ∧ tol ^ 2 < 1 ∧ 0 < normSq X)) :
+    ∃ T, hosvd realOps eigh X tol dimorder seq ranks = .ok T :=
+  hosvd_accepts hE X hX hd hpos tol dimorder hperm seq ranks hlen hcase
+
+/-- `tucker_als` accepts every valid request on data of order ≥ 2 (order 1 is rejected the way the
+Python code fails in `ttm`): ranks within the mode sizes (an integer for all modes or one per
+mode), an iteration limit ≥ 1, a mode order that is a permutation, and any of the three
+initialisations — "random" (the `uniform` service returning matrices with the requested number of
+rows), "nvecs" / "eigs", or a list with one matrix per mode whose shapes fit for all modes but the
+first of the order. -/
+theorem C10_tucker_accepts (nvecs : Nat → Dense ℝ → Nat → Nat → Mat ℝ) (hC : NvecsContract nvecs)
+    (uniform : Nat → Nat → Nat → Mat ℝ) (hUni : ∀ c m p, (uniform c m p).nrows = m) (X : Dense ℝ) (hX : X.WF)
+    (hN : 2 ≤ X.shape.length) (rank : List Nat)
+    (hRl : (parseRank rank X.shape.length).length = X.shape.length)
+    (hR : ∀ n < X.shape.length, (parseRank rank X.shape.length).getD n 0 ≤ X.shape.getD n 0)
+    (stoptol : ℝ) (maxiters : Int) (hmax : 1 ≤ maxiters)
+    (dimorder : Option (List Nat)) (hp : isPermOf (modeOrder dimorder X.shape.length) X.shape.length = true)
+    (init : Init ℝ)
+    (hinit : match init with
+      | .str s => s.toLower = "random" ∨ s.toLower = "nvecs" ∨ s.toLower = "eigs"
+      | .list Us => Us.length = X.shape.length ∧ ∀ n ∈ (modeOrder dimorder X.shape.length).tail,
+          (Us.getD n []).nrows = X.shape.getD n 0 ∧
+          (Us.getD n []).ncols = (parseRank rank X.shape.length).getD n 0) :
+    ∃ out, tuckerAls realOps nvecs uniform X rank stoptol maxiters dimorder init = .ok out :=
+  tuckerAls_accepts hC hUni X hX hN rank hRl hR stoptol maxiters hmax dimorder hp init hinit
+
+/-- A concrete instance: the 2 × 3 tensor `[[2, 1, 0], [1, 3, 1]]` (F order data `2 1 1 3 0 1`). -/
+def c10ExampleX : Dense ℝ := ⟨[2, 3], [2, 1, 1, 3, 0, 1]⟩
+
+/-- … is decomposed by the sequentially truncated HOSVD in the order (1, 0) with tolerance 1/2 and
+automatic ranks (with the `eigh` of the spectral theorem), and the result has the error bound. -/
+example : ∃ T F E, hosvd realOps eighSpec c10ExampleX (1 / 2) (some [1, 0]) true none = .ok T ∧
+    tfull T = .ok F ∧ dsub c10ExampleX F = .ok E ∧ normSq E ≤ (1 / 2) ^ 2 * normSq c10ExampleX := by
+  have hX : c10ExampleX.WF := by simp [c10ExampleX, Dense.WF, numel]
+  have hn : normSq c10ExampleX = 16 := by simp [normSq, c10ExampleX]; norm_num
+  obtain ⟨T, hT⟩ := C10_hosvd_accepts eighSpec eighSpec_contract c10ExampleX hX (by simp [c10ExampleX])
+    (by intro k hk; have : k < 2 := by simpa [c10ExampleX] using hk
+        interval_cases k <;> simp [c10ExampleX])
+    (1 / 2) (some [1, 0]) (by show isPermOf [1, 0] 2 = true; decide) true none (by simp [c10ExampleX, reqRanks])
+    (Or.inr ⟨by intro k; simp [reqRanks, List.getD_eq_getElem?_getD, List.getElem?_replicate]; split <;> rfl,
+      by norm_num, by rw [hn]; norm_num⟩)
+  have hord := C10_hosvd_orthonormal eighSpec eighSpec_contract c10ExampleX hX _ _ _ _ T hT
+  have hcore := C10_hosvd_core eighSpec eighSpec_contract c10ExampleX hX _ _ _ _ T hT
+  -- the reconstruction exists: every factor has as many columns as the core has entries in its mode
+  have hlen : T.factors.length = c10ExampleX.shape.length := (hord 0 (by simp [c10ExampleX])).1
+  have hfull : ∃ F, tfull T = .ok F := by
+    have hcl : T.core.shape.length = c10ExampleX.shape.length := by rw [hcore, ttmFold_shape_length]
+    refine ⟨ttmFold T.core (ascList T.factors T.core.shape.length) false, ?_⟩
+    unfold tfull ttmAll ttmDims
+    rw [if_neg (by rw [hlen, hcl]; omega), if_neg (by simp [hlen, hcl]),
+      if_neg (by rw [hcl]; simp [c10ExampleX]), ttmPairs_range]
+    apply foldlM_ttm_succeeds false _ T.core (ascList_fst_nodup _ _)
+    intro q hq
+    simp only [ascList, List.mem_map, List.mem_range] at hq
+    obtain ⟨k, hk, rfl⟩ := hq
+    rw [hcl] at hk
+    exact ⟨by rw [hcl]; exact hk, by simpa using ((hord k hk).2).ncols⟩
+  obtain ⟨F, hF⟩ := hfull
+  have hFs : F.shape = c10ExampleX.shape := by
+    obtain ⟨tr, hr⟩ := hosvd_run_of_ok hT
+    have hfa := hosvd_facts eighSpec_contract hX hr
+    rw [hfa.full_eq hF]
+    exact recon_shape _ _ hfa.adm _ (by rw [hfa.core, ttmFold_shape])
+  obtain ⟨E, hE⟩ : ∃ E, dsub c10ExampleX F = .ok E := ⟨_, dsub_ok hFs.symm⟩
+  exact ⟨T, F, E, hT, hF, hE,
+    C10_hosvd_error_bound eighSpec eighSpec_contract c10ExampleX hX _ _ _ _
+      (by intro k; simp [reqRanks, List.getD_eq_getElem?_getD, List.getElem?_replicate]; split <;> rfl)
+      T hT F E hF hE⟩
+
+/-- … and by Tucker-ALS with ranks (1, 2), two iterations, a given initial guess. -/
+example : ∃ out, tuckerAls realOps nvecsSpec (fun _ m p => List.replicate m (List.replicate p 0)) c10ExampleX [1, 2] 0 2
+      none (.list [[[1], [0]], [[1, 0], [0, 1], [0, 0]]]) = .ok out ∧
+    out.solution.core = ttmFold c10ExampleX (ascList out.solution.factors 2) true := by
+  have hX : c10ExampleX.WF := by simp [c10ExampleX, Dense.WF, numel]
+  have hR : ∀ n < c10ExampleX.shape.length, (parseRank [1, 2] c10ExampleX.shape.length).getD n 0 ≤ c10ExampleX.shape.getD n 0 := by
+    intro n hn
+    have : n < 2 := by simpa [c10ExampleX] using hn
+    interval_cases n <;> simp [c10ExampleX, parseRank]
+  obtain ⟨out, ho⟩ := C10_tucker_accepts nvecsSpec nvecsSpec_contract
+    (fun _ m p => List.replicate m (List.replicate p 0)) (fun _ _ _ => by simp [Mat.nrows])
+    c10ExampleX hX (by simp [c10ExampleX]) [1, 2] (by simp [c10ExampleX, parseRank]) hR 0 2 (by norm_num) none
+    (by show isPermOf [0, 1] 2 = true; decide) (.list [[[1], [0]], [[1, 0], [0, 1], [0, 0]]])
+    (by simp [c10ExampleX, modeOrder, parseRank, Mat.nrows, Mat.ncols])
+  exact ⟨out, ho, C10_tucker_core nvecsSpec nvecsSpec_contract _ c10ExampleX hX [1, 2] hR 0 2 none _ out ho⟩
 
 end Pyttb
